@@ -1248,7 +1248,14 @@ func stringToTTL(token string) (uint32, bool) {
 	// s and i stay below 2^32, so none of the sums and products below can
 	// wrap a uint64.
 	var s, i uint64
+	digit := false // the previous character was a digit
 	for _, c := range token {
+		isDigit := c >= '0' && c <= '9'
+		if !isDigit && !digit {
+			// a unit needs a number in front of it
+			return 0, false
+		}
+		digit = isDigit
 		switch c {
 		case 's', 'S':
 			s += i
@@ -1275,7 +1282,7 @@ func stringToTTL(token string) (uint32, bool) {
 			return 0, false
 		}
 	}
-	if s+i > math.MaxUint32 {
+	if s+i > math.MaxUint32 || len(token) == 0 {
 		return 0, false
 	}
 	return uint32(s + i), true
